@@ -1,9 +1,5 @@
 package main
 
-import "time"
+import "github.com/coregx/coregex/dfa/lazy"
 
-func replayHistory(string, func(any)) int   { return 2 }
-func minimizeHistory(string, func(any)) int { return 2 }
-func historyBatch(string, uint64, int, int, string, bool, time.Duration, time.Time, func(any)) {}
-func replayStream(string, func(any)) int    { return 2 }
-func streamBatch(string, uint64, int, int, string, time.Duration, time.Time, func(any))       {}
+type lazyInfo = lazy.VerifCacheInfo
